@@ -141,3 +141,44 @@ def f23_bare_own_alias(v):
         return False
     inp = v.input
     return isinstance(inp, dict) and isinstance(inp.get('text'), str) and bare_own_alias_shape(inp['text'])
+
+
+_F24_WORDS = ('E', 'False', 'INF', 'NAN', 'PI', 'True', 'exists', 'forall', 'not')
+_F24_AS = _re.compile(r'\bas\s+([A-Za-z_]\w*)\s*\{')
+
+
+def own_alias_keyword_field_shape(text):
+    """Does some event of the text read, through its OWN alias, a field named like a constant or a prefix keyword
+    (`t as A { ... @A.E ... }`, also `@A.not`, `@A.True.x`)? Only the braces of the event that binds the alias count."""
+    for m in _F24_AS.finditer(text):
+        alias = m.group(1)
+        depth, i, in_str = 1, m.end(), False
+        while i < len(text) and depth:
+            c = text[i]
+            if in_str:
+                if c == '\\':
+                    i += 1
+                elif c == '"':
+                    in_str = False
+            elif c == '"':
+                in_str = True
+            elif c == '{':
+                depth += 1
+            elif c == '}':
+                depth -= 1
+            i += 1
+        body = text[m.end():i]
+        if _re.search(r'@' + _re.escape(alias) + r'\s*\.\s*(?:' + '|'.join(_F24_WORDS) + r')\b', body):
+            return True
+    return False
+
+
+def f24_own_alias_keyword_field(v):
+    """A field named like a constant (PI, E, INF, NAN, True, False) or like a keyword that may start an expression
+    (not, forall, exists) can only be written behind a reference (`@A.E`); when @A is the event's own alias the
+    reference is rewritten to the bare own field, whose printed form `E` is the constant / keyword itself: the printed
+    text parses to another AST or not at all (finding F24)."""
+    if not any(k in v.sig for k in ('print-not-parsable', 'reparse-differs')):
+        return False
+    inp = v.input
+    return isinstance(inp, dict) and isinstance(inp.get('text'), str) and own_alias_keyword_field_shape(inp['text'])
